@@ -40,6 +40,20 @@ class Host:
         return 1 if v else 0
     def _trace(s, vm, vptr):
         s.traces.append(s.pyval(vptr))
+        if getattr(s, 'want_ids', False): s.trace_ids.append(s.idform(vptr, {}, []))
+    def idform(s, vptr, seen, stack):
+        """identity structure of nested arrays: ('arr', k, [children]) with k = first-occurrence index of the array object; ('cycle', k) if the
+        object is its own ancestor; leaves are None"""
+        N = s.N
+        if N['w_val_kind'](vptr) != 4: return None
+        dp = N['w_val_dataptr'](vptr)
+        if dp in stack: return ('cycle', seen[dp])
+        if dp not in seen: seen[dp] = len(seen)
+        stack.append(dp)
+        try:
+            n = N['w_val_arrlen'](vptr)
+            return ('arr', seen[dp], [s.idform(N['w_val_arrat'](vptr, i), seen, stack) for i in range(n)])
+        finally: stack.pop()
     def _event(s, kind, a, b):
         if s.on_event: return s.on_event(kind, a, b) & 0xFFFFFFFF
         s.events.append((kind, a, b)); return 0
@@ -54,9 +68,9 @@ class Host:
     def state(s, vm): return s32(s.N['w_vm_state'](vm))
     def execute(s, vm, action): return s32(s.N['w_vm_execute'](vm, action))
     def reset_obs(s):
-        s.logs = []; s.traces = []; s.events = []
+        s.logs = []; s.traces = []; s.events = []; s.trace_ids = []
     # ---- value inspection: nil -> None, scalar -> float|SF, bool -> bool|S, string -> bytes|list, array -> list, code -> ('code', text), other -> ('other', text)
-    def pyval(s, vptr):
+    def pyval(s, vptr, depth=0):
         N = s.N
         k = N['w_val_kind'](vptr)
         if k == 0: return None
@@ -74,7 +88,8 @@ class Host:
             return bytes(vals)
         if k == 4:
             n = N['w_val_arrlen'](vptr)
-            return [s.pyval(N['w_val_arrat'](vptr, i)) for i in range(n)]
+            if depth > 12: return ('deep',)      # cyclic or very deep container: the caller reports it (idform)
+            return [s.pyval(N['w_val_arrat'](vptr, i), depth + 1) for i in range(n)]
         return ('code' if k == 5 else 'other', s.tostring(vptr))
     def tostring(s, vptr):
         cap = 4096
